@@ -1,6 +1,7 @@
 import GS.Model.Requestor
 import GSProofs.Lemmas.RequestorLocal
 import GSProofs.C24
+import GSProofs.Lemmas.LoaderKahn
 /-!
 # C02 — A single request retrieves every block that either peer can supply
 
@@ -18,7 +19,9 @@ Status of this file (see `STATUS.md`):
   the full-strength statement is false of the code as it is (known findings `skip-prefix-mismatch`
   and `root-not-found-abort`), each an evaluation of the model that the correspondence check ties
   to the real code (`corpus/C02/requestor/known.cases`).
-* order independence (`kahn_*`): see below.
+* order independence: the two local diamonds `kahn_done`, `kahn_parked` are proved (one ingest
+  against one load), plus `kahn_counterexample_retry`; the statement over whole interleavings is not
+  mechanised.
 * NOT proved: `complete_partial` (statement at the end of the file).
 -/
 namespace GS.C02
@@ -111,5 +114,75 @@ theorem counterexample_root_not_found :
     let msgs : List Msg := [⟨true, true, 14, [(5, .missing)], []⟩, ⟨true, true, 34, [], []⟩]
     (exchange [(5, 5)] lt 0 msgs).2 =
       [.block 5 [] true 1, .prog 1, .sentNew 1, .err (.status 34)] := by decide
+
+
+/-! ## order independence of `IngestResponse` and loads (C02.kahn)
+
+`Sim s t` (Lemmas/LoaderKahn.lean): `s` and `t` agree on everything except `lastConsumed` / its
+`next` pointer (read only by `RetryLastLoad`) and the parked-load marker.
+
+Full statement (NOT proved as a whole): for a traversal that never calls `RetryLastLoad` on a load
+that used the remote queue (the executor outside pause/resume), the list of load results depends
+only on the sequence of `IngestResponse` calls (and the moment of the closing `SetRemoteOnline(false)`
+relative to them), not on how they interleave with the loads.  Proved below: the two local diamonds
+from which it follows by induction over the interleaving — one ingest against one load that can be
+answered, and one ingest against one load that has to wait.  `kahn_counterexample_retry` shows
+that the restriction on `RetryLastLoad` is necessary (the code's linked list loses items there). -/
+
+/-- **C02.kahn, load that can be answered.**  On an open loader whose queue tail is intact, if a load
+    completes with result `r`, then ingesting a message first and loading afterwards gives the same
+    result, and the two final states agree. -/
+theorem kahn_done (s : Loader.State) (hopen : s.isOpen = true) (htail : s.rq.tailOn = true)
+    (md : List (Cid × Action)) (bl : List (Cid × Blk)) (p : Path) (c : Cid) (r : Result)
+    (hr : (run s p c).2 = .done r) :
+    Sim (Loader.ingest (run s p c).1 md bl) (run (Loader.ingest s md bl) p c).1 ∧
+    (run (Loader.ingest s md bl) p c).2 = .done r := by
+  have hto := run_tail_open s p c
+  rw [ingest_eq_addQ s md bl hopen htail,
+      ingest_eq_addQ (run s p c).1 md bl (by rw [hto.2]; exact hopen) (by rw [hto.1]; exact htail)]
+  exact (run_addQ s hopen _ p c).1 r hr
+
+/-- **C02.kahn, load that has to wait.**  If the load parks (queue exhausted, response still open),
+    then — whatever message arrives — waking the parked load after the ingest gives the same outcome
+    and state as ingesting first and issuing the load afterwards. -/
+theorem kahn_parked (s : Loader.State) (hopen : s.isOpen = true) (htail : s.rq.tailOn = true)
+    (md : List (Cid × Action)) (bl : List (Cid × Blk)) (p : Path) (c : Cid)
+    (hb : (run s p c).2 = .blocked) :
+    Sim (run (Loader.ingest (run s p c).1 md bl) p c).1 (run (Loader.ingest s md bl) p c).1 ∧
+    (run (Loader.ingest s md bl) p c).2 = (run (Loader.ingest (run s p c).1 md bl) p c).2 := by
+  have hto := run_tail_open s p c
+  rw [ingest_eq_addQ s md bl hopen htail,
+      ingest_eq_addQ (run s p c).1 md bl (by rw [hto.2]; exact hopen) (by rw [hto.1]; exact htail)]
+  exact (run_addQ s hopen _ p c).2 hb
+
+/-- `RetryLastLoad` of a load that consumed the last queued item breaks order independence: the item
+    that arrives between the load and its retry is lost, the one that arrived before the load is not
+    (`remoteQueue.queue` links through `tail` only while `head != nil`).  Only reachable when a load
+    that used the remote queue is retried (pause / resume). -/
+theorem kahn_counterexample_retry :
+    (runOps {} [.online true, .ingest [(0, .present)] [(0, 0)], .load 0 [], .ingest [(1, .present)] [(1, 1)],
+                .retry, .load 1 [0]]).2.map GS.C01.result ≠
+    (runOps {} [.online true, .ingest [(0, .present)] [(0, 0)], .ingest [(1, .present)] [(1, 1)], .load 0 [],
+                .retry, .load 1 [0]]).2.map GS.C01.result := by decide
+
+/-
+## NOT proved: the general completeness theorem
+
+  theorem complete_partial (lt : LT) (loc rem : store) (batching of the honest stream into messages)
+      (hWF  : lt is the pre-order of a tree: depths/paths consistent)
+      (hpre : the responder holds every block of the requestor's local DFS prefix, or more precisely
+              the first N links of the responder's own traversal are that prefix (no window overrun),
+              and holds the root if the requestor does)
+      (hmsgs : msgs = the honest stream for (lt, rem, skip = |local prefix|) in any batching,
+               last message terminal) :
+    the events of `exchange loc lt 0 msgs` are exactly `refTrav lt loc rem`:
+      loads answered with data = the nodes available from `loc` (growing by what was fetched) or from
+      `rem` below nodes the responder followed, in order; `missing` errors exactly for the others;
+      every block attached by the responder and needed is written.
+
+The excluded regions are inhabited: `counterexample_skip_prefix`, `counterexample_root_not_found`.
+What stands in for the proof today is the reference-traversal oracle over the real code
+(streams `loader`, `requestor`, `exchange`; every 2-colouring of small DAGs in the thorough tier).
+-/
 
 end GS.C02
